@@ -74,9 +74,10 @@ class C18(Monitor):
         stats = collections.Counter()
         v = []
         nt = []
-        for text in case["texts"]:
+        shared = GcodeParser()        # one parser instance for the whole batch, re-used for every new text as the plugin does
+        for n, text in enumerate(case["texts"]):
             t0 = time.time()
-            fails = self.check_text(text, stats)
+            fails = self.check_text(text, stats, shared if n % 2 else None)
             if time.time() - t0 > 2.0:
                 stats["slow_case"] += 1
                 continue
@@ -89,9 +90,10 @@ class C18(Monitor):
                     sample=dict(text=case["texts"][0]))
 
     @staticmethod
-    def check_text(text, stats):
+    def check_text(text, stats, parser=None):
         fails = []
-        p = GcodeParser()
+        p = parser if parser is not None else GcodeParser()
+        stats["texts_on_reused_parser" if parser is not None else "texts_on_fresh_parser"] += 1
         total = 0
         pieces = []
         lines = 0
@@ -258,9 +260,8 @@ class C19(Monitor):
             words, text = gen_words(rnd, "XYZ", rnd.randint(0, 3))
             cmd = "G28" + text
         else:
-            words, text = gen_words(rnd, "XYIJEFXYIJ", rnd.randint(2, 6))
+            words, text = gen_words(rnd, "XYIJEFXYIJXYZ", rnd.randint(2, 6))
             cmd = rnd.choice(["G2", "G3"]) + text
-            pre = [p for p in pre if p != "G91"]
         return dict(t="handler", pre=pre, cmd=cmd, words=words)
 
     def check_case(self, case):
